@@ -12,7 +12,8 @@
   the exact guard is `…_partial`, a `…_witness` theorem exhibits the failing input on the model
   of the unrepaired code, and `…_fixed` is the full statement for the repaired code.
 -/
-import JaqVerif.Lemmas.C20Epoch
+import JaqVerif.Lemmas.C20Round
+import JaqVerif.Lemmas.C20Strtime
 
 namespace Jaq.Time
 
@@ -106,11 +107,48 @@ theorem mktime_gmtime (fx : Fixes) (b : Build) (v : Val) (i : Int) (hv : valAsIs
     ∃ a, gmtime fx b v = .val a ∧ mktime fx b a = .val (vint i) :=
   mktime_gmtime_isize fx b v i hv hr.1 hr.2
 
-/- FALSE on the current tree for fractional epochs (F-20c, F-20f), not proved for the repaired code
-   (needs rounding-error bounds of `s + ns/1e9` and `fract * 1e9` in the float model):
+/-- **gmtime | mktime on fractional epochs returns the original instant to the micro-second**
+(round 2; FALSE on the tree as found: F-20c, F-20f — see the witnesses below).  For the code as it
+is now (`treeFixes` = all repairs), in both build modes, for EVERY finite double `f` whose instant
+`us = floatMicros f = ((f * 1e6).round() as i64)` micro-seconds lies in the `Timestamp` range that
+`gmtime` accepts: `gmtime` succeeds and `mktime` of its answer is the number jaq uses for the
+instant `us` µs (`epochOfMicros us`: the integer `us/10⁶` for whole seconds, otherwise the double
+nearest to `us/10⁶`, i.e. `ts.as_microsecond() as f64 / 1e6`).  No micro-second is lost between the
+float seconds field `s + ns/1e9` and `floor` / `(fract * 1e9).round()`: proved from the correct
+rounding of `Jaq.F64` (`Lemmas/C20Float.lean`: `roundRat_near`, `seconds_roundtrip`). -/
+theorem mktime_gmtime_fractional (b : Build) (f : UInt64) (hfin : F64.isFinite f = true)
+    (hr : unixSecMin * 1000000 ≤ floatMicros treeFixes f ∧ floatMicros treeFixes f ≤ unixSecMax * 1000000) :
+    ∃ a, gmtime treeFixes b (.num (.float f)) = .val a ∧
+      mktime treeFixes b a = .val (epochOfMicros (floatMicros treeFixes f)) :=
+  mktime_gmtime_float b f hfin hr.1 hr.2
 
-   theorem mktime_gmtime_fractional (b) (k : Int) (|k| < 2^51) (f = the double nearest to k/10⁶) :
-     ∃ a, gmtime Fixes.all b (float f) = .val a ∧ mktime Fixes.all b a = .val (float f)            -/
+/-- the core of it, independent of how the instant was obtained: `mktime` inverts the specified
+broken-down time of every instant of micro-second resolution in the range (negative ones too) -/
+theorem mktime_specArray_fractional (b : Build) (us : Int)
+    (hr : unixSecMin * 1000000 ≤ us ∧ us ≤ unixSecMax * 1000000) :
+    mktime treeFixes b (specArray (us * 1000)) = .val (epochOfMicros us) :=
+  mktime_specArray_micros b us hr.1 hr.2
+
+example : floatMicros treeFixes (F64.ofDec "6.162323") = 6162323 := by decide +kernel
+example : floatMicros treeFixes (F64.ofDec "-1.5") = -1500000 := by decide +kernel
+example : observe (.val (epochOfMicros 6162323)) = .nums [.float (F64.ofDec "6.162323")] := by decide +kernel
+example : observe (.val (epochOfMicros (-1500000))) = .nums [.float (F64.ofDec "-1.5")] := by decide +kernel
+example : observe (.val (epochOfMicros 5000000)) = .nums [.int 5] := by decide +kernel
+
+/-- **micro-second literals come back bit for bit** — PARTIAL (round 2): for `0 < k < 2^51`
+micro-seconds (1970 .. 2041) with a sub-second part, `f` = the double nearest to `k/10⁶` (what a
+literal with six fraction digits denotes): `(f * 1e6).round() = k`, and `gmtime | mktime` answers
+exactly `f` again.  Missing for the full statement: negative `k` (needs the sign-general versions of
+`div_pos_eq` / `mul_pos_eq`), and that `F64.ofDec` of the decimal text equals this quotient.  Beyond
+2^51 µs the claim is false in general (doubles no longer resolve a quarter micro-second). -/
+theorem mktime_gmtime_microsecond_literal_partial (b : Build) (k : Int) (h0 : 0 < k) (h1 : k < 2 ^ 51)
+    (hk : k % 1000000 ≠ 0) :
+    floatMicros treeFixes (F64.div (F64.ofInt k) f1e6) = k ∧
+    ∃ a, gmtime treeFixes b (.num (.float (F64.div (F64.ofInt k) f1e6))) = .val a ∧
+      mktime treeFixes b a = .val (.num (.float (F64.div (F64.ofInt k) f1e6))) :=
+  ⟨(floatMicros_nearest k h0 h1).2, mktime_gmtime_nearest b k h0 h1 hk⟩
+
+example : F64.div (F64.ofInt 6162323) f1e6 = F64.ofDec "6.162323" := by decide +kernel
 
 /-- F-20c witness: `-1.5 | gmtime | mktime` is `-1` on the unrepaired code
 (`ts.subsec_nanosecond() > 0` is false for negative instants) -/
@@ -152,12 +190,45 @@ theorem fromdate_todate_partial (fx : Fixes) (v : Val) (i : Int) (hv : valAsIsiz
     ∃ cs, toIso8601 fx v = .ok cs ∧ fromIso8601 fx cs = some (.ok (vint i)) :=
   fromIso_toIso_isize fx v i hv hr.1 hr.2 hp
 
-example : parseIso (Timestamp.print ⟨1709164800 * 1000000000⟩) = .ok ⟨1709164800 * 1000000000⟩ := by decide +kernel
-example : parseIso (Timestamp.print ⟨(-377705023201) * 1000000000⟩) = .ok ⟨(-377705023201) * 1000000000⟩ := by decide +kernel
-example : parseIso (Timestamp.print ⟨253402207200 * 1000000000⟩) = .ok ⟨253402207200 * 1000000000⟩ := by decide +kernel
-example : parseIso (Timestamp.print ⟨-1500000000⟩) = .ok ⟨-1500000000⟩ := by decide +kernel
+/-- **the RFC 3339 printer and parser are inverse** (round 2): for every instant of the
+`Timestamp` range, with or without a sub-second part (1..9 fraction digits, trailing zeros trimmed,
+negative years as `-00YYYY`), the strict parser reads back exactly the instant the printer wrote.
+This discharges the hypothesis of `fromdate_todate_partial`. -/
+theorem parse_print_inverse (t : Timestamp) (h : Timestamp.inRange t.ns = true) :
+    parseIso t.print = .ok t :=
+  parseIso_print t h
+
+/-- … and RFC 3339 text with a numeric offset `±HH:MM` (what `fromdate` must accept besides `Z`):
+the civil fields of the instant shifted by `off` seconds, printed with that offset, parse to the
+original instant. -/
+theorem parse_print_offset_inverse (t : Timestamp) (off : Int) (h : Timestamp.inRange t.ns = true)
+    (h60 : off % 60 = 0) (hb : -93540 ≤ off ∧ off ≤ 93540)
+    (hy : -9999 ≤ (Timestamp.toDateTimeUTC ⟨t.ns + off * 1000000000⟩).year ∧
+      (Timestamp.toDateTimeUTC ⟨t.ns + off * 1000000000⟩).year ≤ 9999) :
+    parseIso (printDateTimeOff (Timestamp.toDateTimeUTC ⟨t.ns + off * 1000000000⟩) off) = .ok t :=
+  parseIso_printOff t off h h60 hb hy
+
+/-- **todate | fromdate** returns every integer epoch of the `Timestamp` range — the FULL statement
+(round 2; replaces `fromdate_todate_partial`, whose hypothesis is now a theorem), for every set of
+repairs. -/
+theorem fromdate_todate (fx : Fixes) (v : Val) (i : Int) (hv : valAsIsize v = some i)
+    (hr : unixSecMin ≤ i ∧ i ≤ unixSecMax) :
+    ∃ cs, toIso8601 fx v = .ok cs ∧ fromIso8601 fx cs = some (.ok (vint i)) :=
+  fromIso_toIso_isize_full fx v i hv hr.1 hr.2
+
+/-- **todate | fromdate on fractional epochs returns the original instant to the micro-second**
+(round 2; code as it is now): for every finite double whose instant `us = (f * 1e6).round()` µs is
+in range, the text printed by `todate` is read back by `fromdate` as `epochOfMicros us`. -/
+theorem fromdate_todate_fractional (f : UInt64) (hfin : F64.isFinite f = true)
+    (hr : unixSecMin * 1000000 ≤ floatMicros treeFixes f ∧ floatMicros treeFixes f ≤ unixSecMax * 1000000) :
+    ∃ cs, toIso8601 treeFixes (.num (.float f)) = .ok cs ∧
+      fromIso8601 treeFixes cs = some (.ok (epochOfMicros (floatMicros treeFixes f))) :=
+  fromIso_toIso_float f hfin hr.1 hr.2
+
 example : Timestamp.print ⟨-1500000000⟩ = "1969-12-31T23:59:58.5Z".toList := by decide +kernel
 example : Timestamp.print ⟨(-377705023201) * 1000000000⟩ = "-009999-01-02T01:59:59Z".toList := by decide +kernel
+example : printDateTimeOff (Timestamp.toDateTimeUTC ⟨1709164800 * 1000000000 + 19800 * 1000000000⟩) 19800 =
+    "2024-02-29T05:30:00+05:30".toList := by decide +kernel
 
 /-- F-20e witness: an ISO 8601 text with a decimal comma … jiff accepts it, `s.contains('.')` is
 false and the fraction is dropped.  (The comma form is outside the model's strict parser; the
@@ -169,6 +240,38 @@ theorem fromdate_fraction_flag_witness :
     observe (.val (timestampToEpoch ⟨1704067200500000000⟩ ((Timestamp.subsecNanosecond ⟨1704067200500000000⟩) != 0))) =
       .nums [.float (F64.ofDec "1704067200.5")] := by
   decide +kernel
+
+/-! ## strftime(F) | strptime(F) | mktime (round 2) -/
+
+/-- **`strftime(F) | strptime(F) | mktime` returns the original instant** for EVERY complete format
+`F` over the modelled directives (`%Y %m %d %e %H %M %S %j %a %b %h %z %Z %s %% %F %T` and literal
+text; `CompleteFormat F` is decidable: no `%Z`, every variable-width numeric directive is followed
+by a non-digit, and the directives determine the instant — `%s`, or year + (month, day | `%j`) +
+`%H %M %S`) and EVERY integer epoch of the `Timestamp` range (negative years and years below 1000
+included), in every build mode and for every set of repairs.  `strftimeJaq` / `strptimeJaq` are the
+models of `time.rs: strftime / strptime` over the model of jiff's `strtime` formatter and parser
+(`C20/Strtime.lean`; jiff stays a parameter, tied to the real code on every run by the `fmtcorr`
+correspondence and by the regenerated table below). -/
+theorem strftime_strptime_mktime (fx : Fixes) (b : Build) (F : List Item) (hF : CompleteFormat F) (i : Int)
+    (hr : unixSecMin ≤ i ∧ i ≤ unixSecMax) :
+    ∃ text a, strftimeJaq fx b F (vint i) = .val text ∧ strptimeJaq F text = .ok a ∧
+      mktime fx b a = .val (vint i) :=
+  strptime_strftime_mktime fx b F hF i hr
+
+/-- the six complete formats over modelled directives that the check round-trips on the real code
+(`%Y-%m-%dT%H:%M:%SZ`, `%F %T`, `%s`, `%d/%m/%Y %H.%M.%S`, `%Y-%j %T`, `%a, %d %b %Y %H:%M:%S %z`)
+are inside the model and `CompleteFormat`, so the theorem above applies to them -/
+theorem strftime_check_formats_complete :
+    checkFormats.all (fun f => match parseFormat f with
+      | some F => decide (CompleteFormat F)
+      | none => false) = true :=
+  check_formats_complete
+
+/-- translator tie: for each of the 17 modelled directives and each of 46 fixed instants (range
+limits, leap days, years < 1000, negative years, every weekday and month) the model renders exactly
+what the real `strftime("%X")` rendered when `Gen/C20Strtime.lean` was regenerated (every run) -/
+theorem strftime_directive_table : Gen.strtimeTable.all dirOk = true :=
+  strtime_table_ok
 
 /-! ## rejection: out of range -/
 
@@ -202,6 +305,18 @@ theorem out_of_range_rejected_fixed (b : Build) (v : Val) (i : Int)
     (hv : valAsIsize v = some i) (hout : i < unixSecMin ∨ unixSecMax < i) :
     (gmtime Fixes.all b v).isErr = true ∧ (∃ e, toIso8601 Fixes.all v = .error e) :=
   out_of_range_rejected_partial Fixes.all b v i hv hout (Or.inl rfl)
+
+/-- **out-of-range integer epochs are rejected** — the FULL statement for the code as it is now:
+`treeFixes` is the configuration of `time.rs` that the check's correspondence runs against the
+real filters (all six repairs, `Fixes.all`).  Every integer epoch outside jiff's `Timestamp` range
+(in particular everything outside the years -9999..9999), in any integer representation, in both
+build modes, is an error of `gmtime` and of `todate` — no panic, no wrapped or clamped instant.
+(Replaces the comment "FALSE on the current tree"; `…_partial` above stays as the statement that
+also covers the tree as found.) -/
+theorem out_of_range_rejected (b : Build) (v : Val) (i : Int)
+    (hv : valAsIsize v = some i) (hout : i < unixSecMin ∨ unixSecMax < i) :
+    (gmtime treeFixes b v).isErr = true ∧ (∃ e, toIso8601 treeFixes v = .error e) :=
+  out_of_range_rejected_fixed b v i hv hout
 
 /-- a fractional epoch whose micro-second value is outside the range is rejected (a product beyond
 the `i64` range saturates, which is outside the range too) -/
@@ -263,6 +378,14 @@ theorem non_finite_rejected_fixed (b : Build) (f : UInt64) (hnf : F64.isFinite f
     (gmtime Fixes.all b (.num (.float f))).isErr = true ∧
     (∃ e, toIso8601 Fixes.all (.num (.float f)) = .error e) :=
   non_finite_rejected_partial Fixes.all b f hnf (Or.inl rfl)
+
+/-- **non-finite epochs are rejected** — the FULL statement for the code as it is now
+(`treeFixes` = all repairs): NaN (any payload, either sign) and both infinities are errors of
+`gmtime` and `todate` in both build modes. -/
+theorem non_finite_rejected (b : Build) (f : UInt64) (hnf : F64.isFinite f = false) :
+    (gmtime treeFixes b (.num (.float f))).isErr = true ∧
+    (∃ e, toIso8601 treeFixes (.num (.float f)) = .error e) :=
+  non_finite_rejected_fixed b f hnf
 
 /-- F-20b witness: every NaN is answered with 1970-01-01T00:00:00 by the unrepaired code
 (`NaN as i64 = 0`), in both build modes -/
@@ -343,6 +466,15 @@ theorem malformed_array_rejected_partial (fx : Fixes) (b : Build) (a : List Val)
 theorem malformed_array_rejected_fixed (b : Build) (a : List Val) (hm : ¬ WellFormedBDT a) :
     (mktime Fixes.all b (.arr a)).isErr = true :=
   malformed_array_rejected_partial Fixes.all b a hm (Or.inl rfl) (Or.inl rfl)
+
+/-- **malformed broken-down arrays are rejected** — the FULL statement for the code as it is now
+(`treeFixes` = all repairs): whatever is not a `WellFormedBDT` (fewer than six entries, a
+non-integer among the first five, a non-number / NaN / infinity as seconds, a date that does not
+exist, a field out of range, `⌊seconds⌋` outside 0..59) is an error of `mktime`, in both build
+modes, without guards. -/
+theorem malformed_array_rejected (b : Build) (a : List Val) (hm : ¬ WellFormedBDT a) :
+    (mktime treeFixes b (.arr a)).isErr = true :=
+  malformed_array_rejected_fixed b a hm
 
 /-- the guards are not vacuous: a well-formed array exists, and it is accepted -/
 example : observe (mktime Fixes.none ⟨true⟩ (.arr [vint 2024, vint 1, vint 29, vint 12, vint 30, vint 45])) =
